@@ -15,3 +15,104 @@ spec fn inside(inner: ast::Range, outer: ast::Range) -> bool {
 spec fn node_ranges_ok(lookup: &line_col::LineColLookup, sym: ast::Range, full: ast::Range) -> bool {
     range_ok(lookup, sym) && range_ok(lookup, full) && inside(sym, full)
 }
+
+// ---------- arities at every depth, production by production (C01d: what check_container relies on) ----------
+spec fn method_wf(m: ast::Method) -> bool {
+    type_wf(m.return_type) && forall |j: int| 0 <= j < m.args@.len() ==> type_wf(#[trigger] m.args@[j].arg_type)
+}
+spec fn iface_el_wf(el: ast::InterfaceElement) -> bool {
+    match el { ast::InterfaceElement::Method(m) => method_wf(m), ast::InterfaceElement::Const(c) => type_wf(c.const_type) }
+}
+spec fn parc_el_wf(el: ast::ParcelableElement) -> bool {
+    match el { ast::ParcelableElement::Field(f) => type_wf(f.field_type), ast::ParcelableElement::Const(c) => type_wf(c.const_type) }
+}
+spec fn item_wf(it: ast::Item) -> bool {
+    match it {
+        ast::Item::Interface(i) => forall |k: int| 0 <= k < i.elements@.len() ==> iface_el_wf(#[trigger] i.elements@[k]),
+        ast::Item::Parcelable(p) => forall |k: int| 0 <= k < p.elements@.len() ==> parc_el_wf(#[trigger] p.elements@[k]),
+        ast::Item::Enum(_) => true,
+    }
+}
+// every kept element comes from the list it was filtered from
+proof fn lemma_somes_from<T>(v: Seq<Option<T>>)
+    ensures forall |k: int| 0 <= k < somes(v).len() ==> exists |j: int| 0 <= j < v.len() && v[j] == Some(#[trigger] somes(v)[k])
+    decreases v.len()
+{
+    if v.len() > 0 {
+        lemma_somes_from(v.drop_last());
+        let a = somes(v.drop_last());
+        assert forall |k: int| 0 <= k < somes(v).len() implies exists |j: int| 0 <= j < v.len() && v[j] == Some(#[trigger] somes(v)[k]) by {
+            if k < a.len() {
+                let j = choose |j: int| 0 <= j < v.drop_last().len() && v.drop_last()[j] == Some(a[k]);
+                assert(v[j] == v.drop_last()[j]);
+                assert(somes(v)[k] == a[k]);
+            } else {
+                assert(v[v.len() - 1] == Some(somes(v)[k]));
+            }
+        }
+    }
+}
+// a well-formed type lists only nodes of the right arity
+proof fn lemma_wf_flat(t: ast::Type)
+    requires type_wf(t)
+    ensures all_arity_ok(flat(t))
+    decreases t, t.generic_types@.len() + 1
+{
+    lemma_wf_flat_kids(t, t.generic_types@.len() as int);
+}
+proof fn lemma_wf_flat_kids(t: ast::Type, n: int)
+    requires type_wf(t), 0 <= n <= t.generic_types@.len()
+    ensures all_arity_ok(flat_kids(t, n))
+    decreases t, n
+{
+    if n > 0 {
+        lemma_wf_flat_kids(t, n - 1);
+        assert(type_wf(t.generic_types@[n - 1]));
+        lemma_wf_flat(t.generic_types@[n - 1]);
+    }
+}
+proof fn lemma_wf_args(args: Seq<ast::Arg>, n: int)
+    requires 0 <= n <= args.len(), forall |j: int| 0 <= j < args.len() ==> type_wf(#[trigger] args[j].arg_type)
+    ensures all_arity_ok(arg_types(args, n))
+    decreases n
+{
+    if n > 0 { lemma_wf_args(args, n - 1); lemma_wf_flat(args[n - 1].arg_type); }
+}
+proof fn lemma_wf_iface(els: Seq<ast::InterfaceElement>, n: int)
+    requires 0 <= n <= els.len(), forall |k: int| 0 <= k < els.len() ==> iface_el_wf(#[trigger] els[k])
+    ensures all_arity_ok(iface_types(els, n))
+    decreases n
+{
+    if n > 0 {
+        lemma_wf_iface(els, n - 1);
+        assert(iface_el_wf(els[n - 1]));
+        match els[n - 1] {
+            ast::InterfaceElement::Method(m) => { lemma_wf_flat(m.return_type); lemma_wf_args(m.args@, m.args@.len() as int); }
+            ast::InterfaceElement::Const(c) => { lemma_wf_flat(c.const_type); }
+        }
+    }
+}
+proof fn lemma_wf_parc(els: Seq<ast::ParcelableElement>, n: int)
+    requires 0 <= n <= els.len(), forall |k: int| 0 <= k < els.len() ==> parc_el_wf(#[trigger] els[k])
+    ensures all_arity_ok(parc_types(els, n))
+    decreases n
+{
+    if n > 0 {
+        lemma_wf_parc(els, n - 1);
+        assert(parc_el_wf(els[n - 1]));
+        match els[n - 1] {
+            ast::ParcelableElement::Field(f) => { lemma_wf_flat(f.field_type); }
+            ast::ParcelableElement::Const(c) => { lemma_wf_flat(c.const_type); }
+        }
+    }
+}
+proof fn lemma_item_wf_types(a: ast::Aidl)
+    requires item_wf(a.item)
+    ensures all_arity_ok(types_of(a))
+{
+    match a.item {
+        ast::Item::Interface(i) => { lemma_wf_iface(i.elements@, i.elements@.len() as int); }
+        ast::Item::Parcelable(p) => { lemma_wf_parc(p.elements@, p.elements@.len() as int); }
+        ast::Item::Enum(_) => {}
+    }
+}
